@@ -339,6 +339,14 @@ func TestOrderDependentPrograms(t *testing.T) {
 			gen.NForIn("k", id("m"), []*gen.Node{gen.NCall("probe", gen.NStr("pass"), id("o")), gen.NAssign("=", []*gen.Node{gen.NIndex(id("m"), gen.NBin("+", id("k"), gen.NStr("y")))}, []*gen.Node{id("o")}),
 				gen.NSet("n", gen.NBin("+", id("n"), gen.NInt(1))), gen.NIf([]*gen.Node{gen.NBin(">", id("n"), gen.NInt(10))}, [][]*gen.Node{{gen.NBreak()}}, nil, false)})})},
 	}
+	// strings that mix one-byte and longer characters (and bytes that are no character at all), two statements per pass
+	two := func(v string) []*gen.Node {
+		return []*gen.Node{gen.NCall("probe", gen.NStr("p"), id(v)), gen.NCall("probe", gen.NStr("q"), id(v))}
+	}
+	progs["mixed-string"] = []*gen.Node{gen.NForIn("c", gen.NStr("ab\u00e9\u4e16\U0001F600xy"), two("c")), gen.NCall("probe", gen.NStr("after"))}
+	progs["mixed-string-invalid-bytes"] = []*gen.Node{gen.NForIn("c", gen.NStr("ab\xffcd\u00e9\xf0\x9f"), two("c")), gen.NCall("probe", gen.NStr("after"))}
+	progs["mixed-string-nested"] = []*gen.Node{gen.NForIn("c", gen.NStr("a\u00e9"), []*gen.Node{gen.NForIn("d", gen.NStr("b\u00e9\U0001F600z"), two("d")), gen.NCall("probe", gen.NStr("outer"), id("c"))}), gen.NCall("probe", gen.NStr("after"))}
+	progs["multibyte-first"] = []*gen.Node{gen.NForIn("c", gen.NStr("\u4e16ab\u00e9c"), two("c")), gen.NCall("probe", gen.NStr("after"))}
 	n := 0
 	for name, p := range progs {
 		for _, v2 := range []bool{false, true} {
@@ -394,6 +402,21 @@ func (s *richSig) Stop()                       {}
 func (s *richSig) Cancel()                     {}
 func (s *richSig) Wait()                       {}
 
+// funcSig is a signal that is a function; valueSig is a signal passed by value whose fields include a slice: neither
+// type can be compared with ==, and nothing in the Signal contract says a signal can.
+type funcSig func() bool
+
+func (f funcSig) ExitSignal() bool { return f() }
+
+type valueSig struct {
+	n      *int64
+	fireAt int64
+	notes  []string
+	extra  map[string]int
+}
+
+func (s valueSig) ExitSignal() bool { return atomic.AddInt64(s.n, 1) >= s.fireAt }
+
 func TestSignalWithOtherMethods(t *testing.T) {
 	inc := func(n string) *gen.Node { return gen.NSet(n, gen.NBin("+", id(n), gen.NInt(1))) }
 	progs := map[string]map[string][]*gen.Node{
@@ -416,9 +439,22 @@ func TestSignalWithOtherMethods(t *testing.T) {
 			c.Print(nil)
 			who := map[bool]string{false: "v1", true: "v2"}[v2]
 			slot := "richsig-" + name + "-" + who
-			for _, k := range []int64{1, 3, 50, 5000} {
-				sig := &richSig{fireAt: k, ch: make(chan struct{})}
-				rp := replay{c.Replay("the signal's type also has Done / Err / Deadline / Value / String / Close methods; only ExitSignal says when to stop"), int(k)}
+			for ki, k := range []int64{1, 3, 50, 5000, 2, 7, 60, 4} {
+				counter := new(int64)
+				var sig interface{ ExitSignal() bool }
+				polls := func() int64 { return atomic.LoadInt64(counter) }
+				switch ki % 3 {
+				case 0:
+					rs := &richSig{fireAt: k, ch: make(chan struct{})}
+					sig = rs
+					polls = func() int64 { return atomic.LoadInt64(&rs.n) }
+				case 1:
+					kk := k
+					sig = funcSig(func() bool { return atomic.AddInt64(counter, 1) >= kk })
+				default:
+					sig = valueSig{n: counter, fireAt: k, notes: []string{"a"}, extra: map[string]int{}}
+				}
+				rp := replay{c.Replay("the signal's type has more methods than a Signal needs, or is a function, or a struct passed by value with slice and map fields; only ExitSignal says when to stop"), int(k)}
 				done := make(chan string, 1)
 				evid.Watch(slot, "run with a signal that has other methods as well", rp)
 				go func() {
@@ -451,8 +487,8 @@ func TestSignalWithOtherMethods(t *testing.T) {
 				if res != "true" {
 					rk.Fail(t, slot, rp, "%s: run with the signal firing at poll %d: %s", who, k, res)
 				}
-				if polls := atomic.LoadInt64(&sig.n); polls < k {
-					rk.Fail(t, slot, rp, "%s: the run returned after %d polls although the signal fires at poll %d (non-terminating program)", who, polls, k)
+				if np := polls(); np < k {
+					rk.Fail(t, slot, rp, "%s: the run returned after %d polls although the signal fires at poll %d (non-terminating program)", who, np, k)
 				}
 				evid.Case(fmt.Sprintf("%s/%d", slot, k), true, "signal-with-other-methods/"+who)
 				n++
